@@ -180,3 +180,100 @@ class LayoutMonitor:
         bad = L.check_text(text, list(comments.items()), bytes(raw))
         for b in bad:
             self._viol("text:" + b, {"text_head": text[:200]})
+
+
+class StepBudgetExceeded(BaseException):
+    """raised inside the monitored call when the logical step budget is used up
+    (BaseException so that no 'except Exception' of the code under test swallows it)"""
+
+
+class StepBudget:
+    """counts function entries and jumps (sys.monitoring) while a call runs; the count
+    is the logical - not wall-clock - evidence of (non-)termination"""
+
+    TOOL = 3
+
+    def __init__(self):
+        import sys
+
+        self.mon = sys.monitoring
+        self.steps = 0
+        self.limit = None
+        self.active = False
+        self.max_seen = 0
+        self.max_ratio = 0.0
+        try:
+            self.mon.use_tool_id(self.TOOL, "bvm-stepbudget")
+        except ValueError:
+            pass
+        E = self.mon.events
+        self.mon.register_callback(self.TOOL, E.PY_START, self._ev2)
+        self.mon.register_callback(self.TOOL, E.JUMP, self._ev3)
+        self.mon.register_callback(self.TOOL, E.BRANCH, self._ev3)
+
+    def _tick(self):
+        self.steps += 1
+        if self.limit is not None and self.steps > self.limit and self.active:
+            self.active = False
+            raise StepBudgetExceeded("more than %d logical steps" % self.limit)
+
+    def _ev2(self, code, off):
+        self._tick()
+
+    def _ev3(self, code, off, dst):
+        self._tick()
+
+    def run(self, fn, limit, size=1):
+        E = self.mon.events
+        self.steps = 0
+        self.limit = limit
+        self.active = True
+        self.mon.set_events(self.TOOL, E.PY_START | E.JUMP | E.BRANCH)
+        try:
+            return fn()
+        finally:
+            self.active = False
+            self.mon.set_events(self.TOOL, 0)
+            self.max_seen = max(self.max_seen, self.steps)
+            self.max_ratio = max(self.max_ratio, self.steps / max(1, size))
+
+    def close(self):
+        self.mon.set_events(self.TOOL, 0)
+        try:
+            self.mon.free_tool_id(self.TOOL)
+        except Exception:
+            pass
+
+
+def global_state(ns):
+    """digestable snapshot of library-global state a parser must never change"""
+    import hashlib
+
+    def d(o):
+        return hashlib.sha256(repr(o).encode("utf-8", "backslashreplace")).hexdigest()[:16]
+
+    c = ns.crypto.__dict__
+    snap = {
+        "crypto_registry": d([(k, id(c[k])) for k in sorted(c) if k.startswith("__") and not k.endswith("__")]),
+        "AUTH_BLOCK_CLS_MAP": d(sorted((k, v.__name__) for k, v in ns.bec2file.Bec2File.AUTH_BLOCK_CLS_MAP.items())),
+        "DEFAULT_PUBLIC_KEYS": d(sorted(ns.bec2file.EccEncryptor.DEFAULT_PUBLIC_KEYS.items())),
+        "BF2_TAGTYPE_MAP": d(sorted(ns.bf3file.BF2_TAGTYPE_MAP.items())),
+        "BF2_INTERFACES": d(sorted(ns.bf3file.BF2_INTERFACES.items())),
+        "PFID2_SPECIAL": d(sorted(ns.bf3file.PFID2FILTER_TO_HWCID_SPECIAL_CASES.items())),
+        "HWCID_MAP": d(sorted(ns.hwcids.HWCID_MAP.items())),
+        "REV_HWCID_MAP": d(sorted(ns.hwcids.REV_HWCID_MAP.items())),
+        "MAX_TLVBLOCK_SIZE": ns.bf3file.MAX_TLVBLOCK_SIZE,
+        "BF3TAG": d(sorted((k, v) for k, v in vars(ns.bf3file.BF3TAG).items() if not k.startswith("_"))),
+        "BF3INTF": d(sorted((k, v) for k, v in vars(ns.bf3file.BF3INTF).items() if not k.startswith("_"))),
+    }
+    if hasattr(ns, "curves"):
+        cs = []
+        for cv in ns.curves.curves:
+            g = cv.generator
+            try:
+                cs.append((cv.name, int(g.x()), int(g.y()), int(cv.order)))
+            except Exception:
+                cs.append((cv.name, "?", int(cv.order)))
+        snap["curves"] = d(cs)
+        snap["aes_tables"] = d([tuple(getattr(ns.aes.AES, t)) for t in ("S", "Si", "T1", "T5", "U1", "rcon")])
+    return snap
